@@ -30,15 +30,21 @@ type SpecEnv struct {
 type QInst struct {
 	Forall   string // the quantified text as it occurs in the fact
 	Var      string
-	Inst     string  // (=> range body) with Var free
-	Children []QInst // positive universal quantifiers nested directly in the body
+	Inst     string   // (=> range body) with Var free
+	Children []QInst  // positive universal quantifiers nested directly in the body
+	Consts   []string // extra instantiation terms (all values of a small constant range)
 }
 
 // instantiate returns the instance of q at term c, in which every nested recorded quantifier is strengthened
 // by its own instances at the candidate terms (depth-limited)
-func (q QInst) instantiate(c string, cands []string, depth int) string {
+func (q QInst) instantiate(c string, cands []string, depth int, groundOnly bool) string {
 	inst := strings.ReplaceAll(q.Inst, q.Var, c)
 	if depth <= 0 {
+		if groundOnly {
+			for _, ch := range q.Children {
+				inst = strings.Replace(inst, strings.ReplaceAll(ch.Forall, q.Var, c), "true", 1)
+			}
+		}
 		return inst
 	}
 	for _, ch := range q.Children {
@@ -51,8 +57,11 @@ func (q QInst) instantiate(c string, cands []string, depth int) string {
 			sub.Children = append(sub.Children, QInst{Forall: strings.ReplaceAll(g.Forall, q.Var, c), Var: g.Var, Inst: strings.ReplaceAll(g.Inst, q.Var, c), Children: g.Children})
 		}
 		parts := []string{chForall}
-		for _, c2 := range cands {
-			parts = append(parts, sub.instantiate(c2, cands, depth-1))
+		if groundOnly {
+			parts = nil
+		}
+		for _, c2 := range append(append([]string{}, cands...), ch.Consts...) {
+			parts = append(parts, sub.instantiate(c2, cands, depth-1, groundOnly))
 		}
 		inst = strings.Replace(inst, chForall, sAnd(parts...), 1)
 	}
@@ -291,9 +300,6 @@ func (fr *Frame) sourceVar(name string, env *SpecEnv) (Val, bool) {
 		return d
 	}
 	for _, b := range fr.fn.Blocks {
-		if env.header != nil && !(b.Dominates(env.header) && b != env.header) {
-			continue
-		}
 		for idx, ins := range b.Instrs {
 			d, ok := ins.(*ssa.DebugRef)
 			if !ok || d.IsAddr {
@@ -314,10 +320,24 @@ func (fr *Frame) sourceVar(name string, env *SpecEnv) (Val, bool) {
 				}
 			}
 			if env.header != nil {
-				// the latest binding on the dominator path to the loop header
-				dp := depth(b)
-				if dp > bestDepth || (dp == bestDepth && idx > bestIdx) {
-					bestDepth, bestIdx = dp, idx
+				// the value must be defined on every path to the loop header: its defining block dominates the
+				// header; among those, the most recently defined one is the variable's value at the header
+				dp, ix := -1, -1
+				if vi, isIns := d.X.(ssa.Instruction); isIns {
+					db := vi.Block()
+					if db == nil || !db.Dominates(env.header) || db == env.header {
+						continue
+					}
+					dp = depth(db)
+					for k, in2 := range db.Instrs {
+						if in2 == vi {
+							ix = k
+						}
+					}
+				}
+				_ = idx
+				if dp > bestDepth || (dp == bestDepth && ix > bestIdx) {
+					bestDepth, bestIdx = dp, ix
 					found = d.X
 					n = 1
 				}
@@ -541,11 +561,19 @@ func (fr *Frame) specQuant(q *EQuant, env *SpecEnv) Val {
 	}
 	var rng string
 	var vt types.Type = tInt
+	var consts []string
 	switch q.Kind {
 	case "range":
 		lo := fr.scalar(fr.evalSpec(q.Lo, env.unknownPol()))
 		hi := fr.scalar(fr.evalSpec(q.Hi, env.unknownPol()))
 		rng = sAnd(sApp("<=", lo, bv), sApp("<", bv, hi))
+		if a, ok := numeral(lo); ok {
+			if b, ok := numeral(hi); ok && b-a <= 16 {
+				for x := a; x < b; x++ {
+					consts = append(consts, fmt.Sprint(x))
+				}
+			}
+		}
 	case "dom":
 		m := fr.evalSpec(q.Dom, env.unknownPol())
 		mp, ok := m.Typ.Underlying().(*types.Map)
@@ -585,7 +613,7 @@ func (fr *Frame) specQuant(q *EQuant, env *SpecEnv) Val {
 			str = fmt.Sprintf("(forall ((%s Int)) %s)", bv, full)
 		}
 		if record {
-			*env.qs = append(*env.qs, QInst{Forall: str, Var: bv, Inst: full, Children: children})
+			*env.qs = append(*env.qs, QInst{Forall: str, Var: bv, Inst: full, Children: children, Consts: consts})
 		}
 		return Val{S: str, Typ: tBool}
 	}
